@@ -40,10 +40,12 @@ VWellFormed(ev) == IF ~Terminated(ev) THEN "bad:crash"
 VBreaking(ev) ==
   IF ~Terminated(ev) THEN "bad:crash"
   ELSE IF Bit(ev.exit, 1) \/ Bit(ev.exit, 2) THEN "bad:error-status"
-  ELSE IF ~Bit(ev.exit, 4) THEN (IF KF_C05_union(ev) THEN "kf:C05-same-size-change-in-union" ELSE "bad:change-bit-missing")
+  ELSE IF ~Bit(ev.exit, 4) THEN (IF KF_C05_union(ev) THEN "kf:C05-same-size-change-in-union"
+                                 ELSE IF KF_C05_beside(ev) THEN "kf:C05-uncategorized-change-beside-harmless-change" ELSE "bad:change-bit-missing")
   ELSE IF ev.removed # <<>> /\ ~Bit(ev.exit, 8) THEN "bad:incompatible-bit-missing"
   ELSE IF ~(ToSet(ev.removed) \subseteq ToSet(ev.namedRemoved)) THEN "bad:removed-interface-not-named"
-  ELSE IF ev.affected # <<>> /\ ToSet(ev.affected) \cap ToSet(ev.named) = {} THEN "bad:affected-interface-not-named"
+  ELSE IF ev.affected # <<>> /\ ToSet(ev.affected) \cap ToSet(ev.named) = {}
+       THEN (IF KF_C05_beside(ev) THEN "kf:C05-uncategorized-change-beside-harmless-change" ELSE "bad:affected-interface-not-named")
   ELSE "ok"
 
 (* C06: the model program is unchanged, only neutral rendering choices differ *)
